@@ -62,10 +62,123 @@ theorem C06_find_pure (pf vf : Nat) (mode : Mode) (fs fs' : FileSys) (fn text : 
 /-- non-vacuity: shorter, longer and empty replacements -/
 example : splice [97, 98, 99, 100] [{ makeMatch 1 1 1 2 { (default : Core) with pos := 2, cur := [98] } with replacement := some [120, 121] }, makeMatch 2 2 1 3 { (default : Core) with pos := 3, cur := [99] }] 0 = [97, 120, 121, 100] := by rfl
 
+/-! ## whole runs: any program over any list of files (`RunFiles`) -/
+
+/-- what one command on one file may change, by mode -/
+theorem searchFile_frame (pf vf : Nat) (mode : Mode) (fs fs' : FileSys) (fn text : Bytes) (c : BCmd) (ms : List Match)
+    (h : searchFile pf vf mode fs fn text c = some (.ok (ms, fs'))) :
+    (mode = .nothing → fs' = fs) ∧ (mode = .new → ∀ q, q ≠ fn ++ voredSuffix → fs'.get q = fs.get q) ∧
+    (mode = .overwrite → ∀ q, q ≠ fn → fs'.get q = fs.get q) := by
+  unfold searchFile at h
+  split at h
+  · split at h
+    · cases mode <;> simp at h
+      · obtain ⟨_, rfl⟩ := h
+        exact ⟨by simp, by simp, fun _ q hq => FileSys.get_put_other _ _ _ _ hq⟩
+      · obtain ⟨_, rfl⟩ := h
+        exact ⟨by simp, fun _ q hq => FileSys.get_put_other _ _ _ _ hq, by simp⟩
+      · obtain ⟨_, rfl⟩ := h
+        exact ⟨fun _ => rfl, by simp, by simp⟩
+    all_goals simp at h
+  · split at h <;> simp at h
+    obtain ⟨_, rfl⟩ := h
+    exact ⟨fun _ => rfl, fun _ _ _ => rfl, fun _ _ _ => rfl⟩
+
+theorem runFilesCmd_frame (pf vf : Nat) (mode : Mode) (c : BCmd) :
+    ∀ (files : List Bytes) (fs fs' : FileSys) (ms : List Match),
+      runFilesCmd pf vf mode c files fs = some (.ok (ms, fs')) →
+      (mode = .nothing → fs' = fs) ∧
+      (mode = .new → ∀ q, (∀ f ∈ files, q ≠ f ++ voredSuffix) → fs'.get q = fs.get q) ∧
+      (mode = .overwrite → ∀ q, q ∉ files → fs'.get q = fs.get q) := by
+  intro files
+  induction files with
+  | nil =>
+    intro fs fs' ms h
+    simp only [runFilesCmd, Option.some.injEq, Res.ok.injEq, Prod.mk.injEq] at h
+    obtain ⟨_, rfl⟩ := h
+    exact ⟨fun _ => rfl, fun _ _ _ => rfl, fun _ _ _ => rfl⟩
+  | cons f rest ih =>
+    intro fs fs' ms h
+    simp only [runFilesCmd] at h
+    split at h
+    · simp at h
+    · next text _ =>
+      split at h
+      · next ms1 fs1 h1 =>
+        split at h <;> simp at h
+        next more fs2 h2 =>
+          obtain ⟨_, rfl⟩ := h
+          have a := searchFile_frame pf vf mode fs fs1 f text c ms1 h1
+          have b := ih fs1 fs2 more h2
+          refine ⟨fun hm => by rw [b.1 hm, a.1 hm], fun hm q hq => ?_, fun hm q hq => ?_⟩
+          · rw [b.2.1 hm q (fun g hg => hq g (List.mem_cons_of_mem _ hg)),
+              a.2.1 hm q (hq f (List.mem_cons_self))]
+          · rw [b.2.2 hm q (fun hg => hq (List.mem_cons_of_mem _ hg)),
+              a.2.2 hm q (fun he => hq (he ▸ List.mem_cons_self))]
+      all_goals simp at h
+
+/-- a whole run of any program over any list of files (a path may be listed twice): NOTHING changes no
+file; NEW changes nothing except paths `<f>.vored` for listed `f` — in particular a searched file is left
+byte-identical unless it is itself the `.vored` of another listed file; OVERWRITE changes nothing except
+the listed files -/
+theorem C06_run_frame (pf vf : Nat) (mode : Mode) (files : List Bytes) :
+    ∀ (cmds : List BCmd) (fs fs' : FileSys) (ms : List Match),
+      runFilesL pf vf mode files cmds fs = some (.ok (ms, fs')) →
+      (mode = .nothing → fs' = fs) ∧
+      (mode = .new → ∀ q, (∀ f ∈ files, q ≠ f ++ voredSuffix) → fs'.get q = fs.get q) ∧
+      (mode = .overwrite → ∀ q, q ∉ files → fs'.get q = fs.get q) := by
+  intro cmds
+  induction cmds with
+  | nil =>
+    intro fs fs' ms h
+    simp only [runFilesL, Option.some.injEq, Res.ok.injEq, Prod.mk.injEq] at h
+    obtain ⟨_, rfl⟩ := h
+    exact ⟨fun _ => rfl, fun _ _ _ => rfl, fun _ _ _ => rfl⟩
+  | cons c cs ih =>
+    intro fs fs' ms h
+    simp only [runFilesL] at h
+    split at h
+    · next ms1 fs1 h1 =>
+      split at h <;> simp at h
+      next more fs2 h2 =>
+        obtain ⟨_, rfl⟩ := h
+        have a := runFilesCmd_frame pf vf mode c files fs fs1 ms1 h1
+        have b := ih fs1 fs2 more h2
+        exact ⟨fun hm => by rw [b.1 hm, a.1 hm], fun hm q hq => by rw [b.2.1 hm q hq, a.2.1 hm q hq],
+          fun hm q hq => by rw [b.2.2 hm q hq, a.2.2 hm q hq]⟩
+    all_goals simp at h
+
+/-- the one-file run the correspondence drives is the list run on `[f]` -/
+theorem C06_run_single (pf vf : Nat) (mode : Mode) (f : Bytes) :
+    ∀ (cmds : List BCmd) (fs : FileSys), runFilesL pf vf mode [f] cmds fs = runFiles pf vf mode f cmds fs := by
+  intro cmds
+  induction cmds with
+  | nil => intro fs; rfl
+  | cons c cs ih =>
+    intro fs
+    simp only [runFilesL, runFiles, runFilesCmd]
+    cases hg : fs.get f with
+    | none => rfl
+    | some text =>
+      simp only
+      cases hs : searchFile pf vf mode fs f text c with
+      | none => rfl
+      | some r =>
+        cases r with
+        | ok p =>
+          obtain ⟨ms, fs1⟩ := p
+          simp only [List.append_nil]
+          rw [ih fs1]
+        | panic t => rfl
+        | pfuel => rfl
+
 #print axioms C06_splice
 #print axioms C06_mode_nothing
 #print axioms C06_mode_new
 #print axioms C06_mode_overwrite
 #print axioms C06_find_pure
+
+#print axioms C06_run_frame
+#print axioms C06_run_single
 
 end Vore
